@@ -136,6 +136,9 @@ func New(opt Option) (ShimAgent, error) {
 		return nil, err
 	}
 	ag, err := newShimAgent(conn, opt.NoUpstream)
+	if err != nil {
+		return nil, err
+	}
 
 	if opt.PubKeyComp == nil {
 		opt.PubKeyComp = func(x, y ssh.PublicKey) bool {
